@@ -3,11 +3,17 @@ package main
 import (
 	"encoding/json"
 	"fmt"
+	"reflect"
 )
 
 func init() {
 	// defaults {schema, docs, insts}: ApplyDefaults once and twice on each instance (decoded into any),
 	// Validate before/after, and Resolve with ValidateDefaults.
+	// Optional "ginsts": further instances given as Go value descriptors (goval.go) — TYPED containers such as
+	// map[string]map[string]any, map[string][]int, map[string]*map[string]any, or a map[string]any holding pointers. Each is
+	// stored in a variable of its own type T and ApplyDefaults gets the *T; reported under "typed": outcome and JSON text after
+	// one and two applications, and whether two containers of the result (maps, non-empty slices, pointers) are one and the same
+	// object although the descriptor builds every container separately. Without "ginsts" nothing changes.
 	register("defaults", func(args json.RawMessage) (any, error) {
 		var a validateArgs
 		if err := json.Unmarshal(args, &a); err != nil {
@@ -82,6 +88,32 @@ func init() {
 				scribble(v)
 			}
 		}
+		if a.GInsts != nil {
+			typed := []any{}
+			for _, g := range a.GInsts {
+				v, err := build(g)
+				if err != nil {
+					return nil, err
+				}
+				var p reflect.Value
+				if v.IsValid() {
+					p = reflect.New(v.Type())
+					p.Elem().Set(v)
+				} else {
+					p = reflect.ValueOf(new(any))
+				}
+				r1 := applyOnceP(rs, p.Interface())
+				b1, e1 := json.Marshal(p.Elem().Interface())
+				shared := sharedContainer(p.Elem())
+				r2 := applyOnceP(rs, p.Interface())
+				b2, e2 := json.Marshal(p.Elem().Interface())
+				if e1 != nil || e2 != nil {
+					return nil, fmt.Errorf("typed instance does not marshal: %v %v", e1, e2)
+				}
+				typed = append(typed, map[string]any{"r": r1, "text": string(b1), "r2": r2, "text2": string(b2), "shared": shared})
+			}
+			res["typed"] = typed
+		}
 		res["alias_free"] = aliasFree
 		res["alias_detail"] = aliasDetail
 		res["once"] = once
@@ -108,6 +140,72 @@ func scribble(v any) {
 			c[0] = "#scribble"
 		}
 	}
+}
+
+// sharedContainer reports (as a description, "" if none) a map, non-empty slice or pointer that is reachable twice from v.
+func sharedContainer(v reflect.Value) string {
+	type key struct {
+		k reflect.Kind
+		p uintptr
+	}
+	seen := map[key]bool{}
+	found := ""
+	var walk func(v reflect.Value)
+	note := func(v reflect.Value) bool {
+		k := key{v.Kind(), v.Pointer()}
+		if seen[k] {
+			if found == "" {
+				found = fmt.Sprintf("one %s is reachable twice", v.Type())
+			}
+			return false
+		}
+		seen[k] = true
+		return true
+	}
+	walk = func(v reflect.Value) {
+		switch v.Kind() {
+		case reflect.Interface:
+			if !v.IsNil() {
+				walk(v.Elem())
+			}
+		case reflect.Pointer:
+			if !v.IsNil() && note(v) {
+				walk(v.Elem())
+			}
+		case reflect.Map:
+			if !v.IsNil() && note(v) {
+				it := v.MapRange()
+				for it.Next() {
+					walk(it.Value())
+				}
+			}
+		case reflect.Slice:
+			if v.Cap() > 0 && v.Type().Elem().Size() > 0 && !note(v) {
+				return
+			}
+			for i := 0; i < v.Len(); i++ {
+				walk(v.Index(i))
+			}
+		case reflect.Array:
+			for i := 0; i < v.Len(); i++ {
+				walk(v.Index(i))
+			}
+		}
+	}
+	walk(v)
+	return found
+}
+
+func applyOnceP(rs interface{ ApplyDefaults(any) error }, p any) (out string) {
+	defer func() {
+		if r := recover(); r != nil {
+			out = "panic"
+		}
+	}()
+	if err := rs.ApplyDefaults(p); err != nil {
+		return "error"
+	}
+	return "ok"
 }
 
 func applyOnce(rs interface{ ApplyDefaults(any) error }, vp *any) (out string) {
